@@ -31,6 +31,8 @@ JVM_ENV = {"JAVA_TOOL_OPTIONS": "-Xss64m"}
 MODE_WORD = {"F": "off", "N": "auto", "T": "required"}
 SCALE = float(os.environ.get("C06_SCALE", "1") or 1)      # smoke-test knob; registered commands leave it at 1
 PARTS = set((os.environ.get("C06_PARTS") or "mc,pack,split,e2e").split(","))   # development knob; registered commands leave it unset
+MC_CACHE = os.environ.get("C06_MC_CACHE")    # development knob (mutant runs): reuse the graphs / states exported by an earlier MC run
+                                             # (the models do not depend on the tree under test); registered commands leave it unset
 
 _START = threading.Lock()
 
@@ -78,7 +80,8 @@ def run_models(chk, results):
         results["live"] = tlc_staggered(chk, "MC_OTLRepack", cfg="MC_OTLRepack_live", workers=2, timeout=1500, heap="2g",
                                         label="MC_OTLRepack_live (Terminates under weak fairness)")
 
-    jobs = [pack] + [repack(n) for n in ("gsub_off", "gpos_off", "gsub_on", "gpos_on")] + [stuck, live]
+    names = ("gsub_off", "gpos_off", "gsub_on", "gpos_on") if thorough else ("gsub_off", "gpos_off", "gsub_on")
+    jobs = [pack] + [repack(n) for n in names] + [stuck] + ([live] if thorough else [])
     errs = []
 
     def guard(fn):
@@ -125,7 +128,8 @@ def model_notes(chk, results):
                                    "meaning": "a ligature-like subtable with ONE item too big for 16-bit offsets: split moves everything and leaves an empty subtable"}
     if not found and not s.ok:
         raise MachineryError("MC_OTLRepack_stuck failed for another reason:\n" + "\n".join(s.stdout.splitlines()[-30:]))
-    chk.notes["mc_live"] = {"distinct_states": results["live"].distinct, "property": "Terminates == <>(pc = \"done\") under WF, no violation"}
+    if "live" in results:
+        chk.notes["mc_live"] = {"distinct_states": results["live"].distinct, "property": "Terminates == <>(pc = \"done\") under WF, no violation"}
     return found
 
 
@@ -144,14 +148,22 @@ def _pack_job(arg):
     return out
 
 
+def part_rng(chk, part):
+    """one seeded generator per part, so that a part draws the same sample whatever else runs"""
+    import random
+
+    return random.Random("C06-%s-%d" % (part, chk.seed))
+
+
 def run_pack_replay(chk, graphs):
     from . import c06_pack as cp
 
     thorough = chk.tier == "thorough"
+    rng = part_rng(chk, "pack")
     small = [g for g in graphs if len(g) <= 3]
     big = [g for g in graphs if len(g) > 3]
     n = len(big) if thorough else min(len(big), int(4500 * SCALE))
-    chk.rng.shuffle(big)
+    rng.shuffle(big)
     chosen = small + big[:n]
     jobs = [(cp.to_bytes_graph(g), "tlc") for g in chosen] + [(g, label) for label, g in cp.handmade_graphs()]
     res = common.pmap(_pack_job, jobs, procs=12, chunksize=64)
@@ -180,7 +192,7 @@ def run_split_replay(chk, states):
             seen.add(k)
             uniq.append(s)
     if chk.tier != "thorough" and len(uniq) > int(420 * SCALE):
-        chk.rng.shuffle(uniq)
+        part_rng(chk, "split").shuffle(uniq)
         uniq = uniq[: int(420 * SCALE)]
     traces = common.pmap(c06_split.replay_state, uniq, procs=8, chunksize=16)
     kinds = {}
@@ -248,17 +260,18 @@ def corpus_cases(chk):
             ttx.append({"kind": "ttx", "path": p, "label": "ttx:" + common.rel(p)})
     feas = [c for c in common.pmap(fea_case, common.corpus_files(".fea"), procs=8, chunksize=8) if c]
     if not thorough:
-        chk.rng.shuffle(ttx)
-        ttx = ttx[: int(40 * SCALE)]
-        chk.rng.shuffle(cases)
-        cases = cases[: int(150 * SCALE)]
-        chk.rng.shuffle(feas)
-        feas = feas[: int(110 * SCALE)]
+        rng = part_rng(chk, "corpus")
+        rng.shuffle(ttx)
+        ttx = ttx[: int(30 * SCALE)]
+        rng.shuffle(cases)
+        cases = cases[: int(120 * SCALE)]
+        rng.shuffle(feas)
+        feas = feas[: int(90 * SCALE)]
     levels = list(range(1, 10)) if thorough else [1, 5, 9]
     for c in cases + ttx + feas:
         c["runs"] = [("F", 0), ("N", 0), ("T", 0)]
         c["levels"] = levels
-        c["budget"] = 60
+        c["budget"] = 120
     return sorted(cases + ttx + feas, key=lambda c: c["label"])
 
 
@@ -412,17 +425,26 @@ def run(chk):
                 % (results["pack"].distinct, chk.notes["mc_repack"]["distinct_states"], stuck_found))
 
     # ---- (R) ------------------------------------------------------------------------------------
-    graphs = gen_payloads(results["pack"]) if "mc" in PARTS and "pack" in PARTS else []
-    pack_traces = run_pack_replay(chk, graphs) if "pack" in PARTS else []
-    rej, _x, _r = judge_parallel(chk, "Trace_C06", pack_traces, "Trace_C06 pack", per=3000)
-    report_simple(chk, rej, "pack")
-    chk.traces_validated += len(pack_traces) - len(rej)
+    graphs = gen_payloads(results["pack"]) if "mc" in PARTS else []
     states = []
     for k, v in results.items():
         if k.startswith("repack_"):
             states += gen_payloads(v)
+    if MC_CACHE:
+        fn = os.path.join(MC_CACHE, "exports-%s.json" % chk.tier)
+        if "mc" in PARTS:
+            with open(fn, "w") as f:
+                json.dump({"graphs": graphs, "states": states}, f)
+        else:
+            with open(fn) as f:
+                d = json.load(f)
+            graphs, states = d["graphs"], d["states"]
+    pack_traces = run_pack_replay(chk, graphs) if "pack" in PARTS else []
+    rej, _x, _r = judge_parallel(chk, "Trace_C06", pack_traces, "Trace_C06 pack", parts=2, per=5000)
+    report_simple(chk, rej, "pack")
+    chk.traces_validated += len(pack_traces) - len(rej)
     split_traces = run_split_replay(chk, states) if "split" in PARTS else []
-    rej, _x, _r = judge_parallel(chk, "Trace_C06", split_traces, "Trace_C06 split", per=250)
+    rej, _x, _r = judge_parallel(chk, "Trace_C06", split_traces, "Trace_C06 split", parts=2, per=300)
     report_simple(chk, rej, "split")
     chk.traces_validated += len(split_traces) - len(rej)
 
@@ -463,7 +485,7 @@ def run(chk):
     chk.notes["end_to_end"] = stats
     chk.log("judging %d fonts (%d runs) and %d loop traces" % (len(e2e), stats["runs"], len(loops)))
 
-    rej, extra, _r = judge_parallel(chk, "Trace_C06", e2e, "Trace_C06 e2e", parts=4, per=60)
+    rej, extra, _r = judge_parallel(chk, "Trace_C06", e2e, "Trace_C06 e2e", parts=4, per=40)
     hbs = extra.get("HBS", {})
     tot = [0, 0, 0]
     for v in hbs.values():
@@ -476,11 +498,13 @@ def run(chk):
     for k, (st, clause) in rej.items():
         case, t = owner[id(st)]
         e2e_rej.append((case, t, clause[0]))
-    rej, extra, _r = judge_parallel(chk, "Trace_C06_Loop", loops, "Trace_C06_Loop", wrap=lambda part: {"meta": {}, "traces": part}, parts=2, per=600)
+    rej, extra, _r = judge_parallel(chk, "Trace_C06_Loop", loops, "Trace_C06_Loop", wrap=lambda part: {"meta": {}, "traces": part}, parts=1, per=100000)
     acc, skp = extra.get("ACC", {}), extra.get("SKP", {})
     for tl in loops:
         if id(tl) in skp:
             chk.skip(skp[id(tl)][0])
+            chk.notes.setdefault("inconclusive_compiles (budget exceeded, no non-progressing step seen)", []).append(
+                "%s %s repacker-%s" % (tl["label"], tl["tag"], MODE_WORD[tl["mode"]]))
         elif id(tl) in acc:
             chk.traces_validated += 1
         elif id(tl) not in rej:
@@ -511,9 +535,9 @@ def run(chk):
     for case, tl, c, clause in later:
         key = "Terminates:%s:repacker-%s" % (case.get("label_key") or case["label"], MODE_WORD[tl["mode"]])
         nsub = sum(len(l["st"]) for l in (owner[id(tl)][1].get("final") or []))
-        what = ("%s: %s.compile() with USE_HARFBUZZ_REPACKER=%s did not return within %d s: %s (event %s); "
+        what = ("%s: %s.compile() with USE_HARFBUZZ_REPACKER=%s did not return (stopped after %d resolutions / %d s): %s (event %s); "
                 "the lookup list had grown to %d subtables when the run was stopped; events: %s"
-                % (case["label"], tl["tag"], {"F": False, "N": None, "T": True}[tl["mode"]], case.get("budget", 60), c, clause[1:], nsub,
+                % (case["label"], tl["tag"], {"F": False, "N": None, "T": True}[tl["mode"]], 22, case.get("budget", 60), c, clause[1:], nsub,
                    [e["a"] + (":" + json.dumps(e["rec"]) if e.get("res") == "overflow" else "") for e in tl["events"]][:16]))
         chk.reject(key, what, {"kind": "loop", "case": _case_for_replay(case), "tag": tl["tag"], "mode": tl["mode"],
                                "reproducer": REPRODUCER if case.get("shape") == "gsub-ligature-one-set" else None})
